@@ -28,6 +28,7 @@ def main():
     ap.add_argument("seed")
     ap.add_argument("--checks", default=None)
     ap.add_argument("--skip-suite", action="store_true")
+    ap.add_argument("--suite-only", action="store_true", help="demo + pinned suite only; keep the recorded check results")
     ap.add_argument("--tier", default="quick")
     ap.add_argument("--keep", default=None)
     ap.add_argument("--workers", default="16")
@@ -73,7 +74,7 @@ def main():
             out["suite_ok"] = not missing
             os.unlink(junit)
         caught = {}
-        for chk in checks:
+        for chk in ([] if args.suite_only else checks):
             cenv = dict(os.environ, VERIF_REPO=str(base), VERIF_WORKERS=args.workers)
             cp = sh([str(VERIF / "bin" / "check"), chk, "--tier", args.tier, "--no-evidence"], env=cenv, timeout=3000)
             viol = [ln for ln in cp.stdout.splitlines() if ln.startswith("VIOLATION property=")]
@@ -84,8 +85,9 @@ def main():
                 except OSError:
                     pass
             caught[chk] = {"exit": cp.returncode, "violations": len(viol), "first": " | ".join(x.strip()[:260] for x in first)}
-        out["checks"] = caught
-        out["caught_by"] = sorted(k for k, v in caught.items() if v["exit"] == 1 and v["violations"])
+        if not args.suite_only:
+            out["checks"] = caught
+            out["caught_by"] = sorted(k for k, v in caught.items() if v["exit"] == 1 and v["violations"])
     finally:
         shutil.rmtree(base, ignore_errors=True)
     print(json.dumps(out, indent=1))
@@ -95,6 +97,11 @@ def main():
         for f in ("patch.diff", "demo.py"):
             if (seed / f).resolve() != (dst / f).resolve():
                 shutil.copyfile(seed / f, dst / f)
+        if args.suite_only and (dst / "meta.json").exists():
+            prev = json.loads((dst / "meta.json").read_text()).get("evaluation", {})
+            for k in ("checks", "caught_by"):
+                if k in prev:
+                    out[k] = prev[k]
         if "suite_ok" not in out and (dst / "meta.json").exists():
             # --skip-suite on a re-evaluation: the patch is unchanged, keep the recorded suite result
             prev = json.loads((dst / "meta.json").read_text()).get("evaluation", {})
